@@ -272,6 +272,13 @@ def main(ctx):
     # WorkBounded; part of builder-editor, shared with the extra module X06) ----
     from checks import x06
     x06.editor_work_cases(ctx, quick)
+    # ---- the server side of the SFTP copy-data extension: offsets and length
+    # are peer-chosen uint64 values; every request costs at most
+    # ceil(length / block) + 1 iterations and gets its one reply
+    # (SftpIO/CopyData.tla ChunkProgress; part of builder-sftp, shared with
+    # C12 / C14) ----
+    from harness.drivers import sftp_copydata
+    sftp_copydata.copy_data_work_cases(ctx, quick)
     ctx.assumptions += [
         'work bounds: 3 s watchdog per input, <= 2000 loop iterations and '
         '<= 4096 + 64*len(input) output bytes per packet (generous: only '
